@@ -252,18 +252,7 @@ theorem inherited_down_aux (ts : TypeSystem) (hf : FeatInv ts) (a b : String) (t
 
 /-! ### A Boolean checker for `FeatInv` on concrete tables -/
 
-def featInvB (ts : TypeSystem) : Bool :=
-  ts.types.all fun t =>
-    nodupB (fnames t.own) && nodupB (fnames t.inh) &&
-    (t.own.all fun f => t.inh.all fun g => !(f.name == g.name) || featureEq f g) &&
-    (match t.super with
-     | none => t.inh.isEmpty
-     | some s => match find? ts s with
-       | none => true
-       | some ps =>
-         (t.inh.all fun g => (fnames (allFeatures ps)).contains g.name) &&
-         ((allFeatures ps).all fun f => (fnames t.inh).contains f.name) &&
-         (t.inh.all fun g => (allFeatures ps).all fun f => !(f.name == g.name) || featureEq f g))
+
 
 theorem featInvB_sound (ts : TypeSystem) (h : featInvB ts = true) : FeatInv ts := by
   unfold featInvB at h
@@ -431,5 +420,909 @@ theorem inheritAll_spec : ∀ (fs : List Feature) (t t' : TypeRec), (fnames fs).
       simp only [fnames, List.map_cons, List.map_nil, List.mem_singleton]
       intro e; subst e; exact hn.1 hnm) h
     rw [this]; simp
+
+/-! ### `createType` -/
+
+@[simp] theorem upd_own (sup n : String) (t : TypeRec) : (upd sup n t).own = t.own := by
+  unfold upd; split <;> rfl
+@[simp] theorem upd_inh (sup n : String) (t : TypeRec) : (upd sup n t).inh = t.inh := by
+  unfold upd; split <;> rfl
+@[simp] theorem allFeatures_upd (sup n : String) (t : TypeRec) :
+    allFeatures (upd sup n t) = allFeatures t := by
+  unfold allFeatures; rw [upd_own, upd_inh]
+
+theorem createType_shape (K : Consts) (ts ts' : TypeSystem) (n s : String) (d : Option String)
+    (hc : Consistent ts) (hf : FeatInv ts) (hnew : hasExact ts n = false)
+    (h : createType K ts n s d = .ok ts') :
+    ∃ sup, getType ts s = .ok sup ∧ sup ∈ ts.types ∧
+      ts' = { types := ts.types.map (upd sup.name n) ++
+                [{ name := n, super := some sup.name, descr := d, inh := allFeatures sup }],
+              redeclared := ts.redeclared } := by
+  obtain ⟨sup, new1, hsup, hinh, rfl⟩ := createType_ok K ts ts' n s d h
+  have hsm : sup ∈ ts.types := getType_mem hsup
+  have hfs : find? ts sup.name = some sup := find?_of_mem hc.nodup hsm
+  have hnc : sup.children.contains n = false := by
+    cases hcn : sup.children.contains n with
+    | false => rfl
+    | true =>
+      have hm : n ∈ sup.children := by simpa using hcn
+      obtain ⟨tb, htb, _⟩ := (hc.link sup.name n).mp ⟨sup, hfs, hm⟩
+      rw [find?_none_of_not_has hnew] at htb; cases htb
+  have hnew1 := inheritAll_spec _ _ _ (effective_names_nodup_aux ts hf sup hsm)
+    (by intro m _; simp [fnames]) hinh
+  simp only [List.nil_append] at hnew1
+  refine ⟨sup, hsup, hsm, ?_⟩
+  simp only [hnc, Bool.false_eq_true, if_false]
+  have hset : setRec ts { sup with children := sup.children ++ [n] } =
+      { types := ts.types.map (upd sup.name n), redeclared := ts.redeclared } := by
+    unfold setRec
+    congr 1
+    apply List.map_congr_left
+    intro x hx
+    unfold upd
+    simp only
+    split
+    · rename_i hxn
+      have : x = sup := name_inj_of_nodup _ hc.nodup x hx sup hsm (by simpa using hxn)
+      rw [this]
+    · rfl
+  rw [hset]
+  have hn1 : new1.name = n := by rw [hnew1]
+  have hnot : hasExact { types := ts.types.map (upd sup.name n), redeclared := ts.redeclared } new1.name = false := by
+    rw [hn1]
+    cases hx : hasExact { types := ts.types.map (upd sup.name n), redeclared := ts.redeclared } n with
+    | false => rfl
+    | true =>
+      rw [hasExact_iff_mem] at hx
+      simp only [List.map_map, Function.comp_def, upd_name] at hx
+      rw [← hasExact_iff_mem, hnew] at hx; cases hx
+  unfold putRec
+  rw [hnot]
+  simp only [Bool.false_eq_true, if_false]
+  rw [hnew1]
+
+theorem featInv_extend (ts ts' : TypeSystem) (n : String) (sup new : TypeRec)
+    (hc : Consistent ts) (hf : FeatInv ts) (hnew : hasExact ts n = false)
+    (hsm : sup ∈ ts.types) (hn1 : new.name = n) (hs1 : new.super = some sup.name)
+    (ho : new.own = []) (hi : new.inh = allFeatures sup)
+    (hts' : ts'.types = ts.types.map (upd sup.name n) ++ [new]) : FeatInv ts' := by
+  have hfind : ∀ x, find? ts' x = if x = n then some new else (find? ts x).map (upd sup.name n) := by
+    obtain ⟨types', red⟩ := ts'
+    simp only at hts'; subst hts'
+    exact find_create ts red n sup.name new hn1 hnew
+  have hfs : find? ts sup.name = some sup := find?_of_mem hc.nodup hsm
+  have hsn : sup.name ≠ n := by
+    intro e; rw [e] at hfs; rw [find?_none_of_not_has hnew] at hfs; cases hfs
+  have hmem : ∀ t' ∈ ts'.types, (∃ t0 ∈ ts.types, t' = upd sup.name n t0) ∨ t' = new := by
+    intro t' ht'
+    rw [hts'] at ht'
+    rcases List.mem_append.mp ht' with h | h
+    · obtain ⟨t0, ht0, e⟩ := List.mem_map.mp h
+      exact Or.inl ⟨t0, ht0, e.symm⟩
+    · exact Or.inr (by simpa using h)
+  -- the supertype of an old record is an old record
+  have hsup_old : ∀ t0 ∈ ts.types, ∀ s0 ps', t0.super = some s0 → find? ts' s0 = some ps' →
+      ∃ ps, find? ts s0 = some ps ∧ ps' = upd sup.name n ps := by
+    intro t0 ht0 s0 ps' hs0 hps'
+    have hreg := hc.superReg t0 ht0 s0 hs0
+    have hne : s0 ≠ n := by intro e; rw [e, hnew] at hreg; cases hreg
+    rw [hfind, if_neg hne] at hps'
+    cases hq : find? ts s0 with
+    | none => rw [hq] at hps'; cases hps'
+    | some ps => rw [hq] at hps'; exact ⟨ps, rfl, (Option.some.inj hps').symm⟩
+  have hsup_new : ∀ ps', find? ts' sup.name = some ps' → ps' = upd sup.name n sup := by
+    intro ps' hps'
+    rw [hfind, if_neg hsn, hfs] at hps'
+    exact (Option.some.inj hps').symm
+  refine ⟨?_, ?_, ?_, ?_, ?_, ?_⟩
+  · intro t' ht'
+    rcases hmem t' ht' with ⟨t0, ht0, rfl⟩ | rfl
+    · rw [upd_own]; exact hf.ownNodup t0 ht0
+    · rw [ho]; simp [fnames]
+  · intro t' ht'
+    rcases hmem t' ht' with ⟨t0, ht0, rfl⟩ | rfl
+    · rw [upd_inh]; exact hf.inhNodup t0 ht0
+    · rw [hi]; exact effective_names_nodup_aux ts hf sup hsm
+  · intro t' ht'
+    rcases hmem t' ht' with ⟨t0, ht0, rfl⟩ | rfl
+    · rw [upd_own, upd_inh]; exact hf.compat t0 ht0
+    · rw [ho]; intro f hfm; cases hfm
+  · intro t' ht' s0 ps' hs0 hps' m
+    rcases hmem t' ht' with ⟨t0, ht0, rfl⟩ | rfl
+    · rw [upd_super] at hs0
+      obtain ⟨ps, hps, rfl⟩ := hsup_old t0 ht0 s0 ps' hs0 hps'
+      rw [upd_inh, allFeatures_upd]
+      exact hf.inherit t0 ht0 s0 ps hs0 hps m
+    · rw [hs1] at hs0
+      simp only [Option.some.injEq] at hs0
+      subst hs0
+      rw [hsup_new ps' hps', allFeatures_upd, hi]
+  · intro t' ht' s0 ps' hs0 hps' g hg f hfm e
+    rcases hmem t' ht' with ⟨t0, ht0, rfl⟩ | rfl
+    · rw [upd_super] at hs0
+      obtain ⟨ps, hps, rfl⟩ := hsup_old t0 ht0 s0 ps' hs0 hps'
+      rw [upd_inh] at hg
+      rw [allFeatures_upd] at hfm
+      exact hf.inheritEq t0 ht0 s0 ps hs0 hps g hg f hfm e
+    · rw [hs1] at hs0
+      simp only [Option.some.injEq] at hs0
+      subst hs0
+      rw [hsup_new ps' hps', allFeatures_upd] at hfm
+      rw [hi] at hg
+      rw [feat_inj_of_nodup _ (effective_names_nodup_aux ts hf sup hsm) f hfm g hg e]
+      exact featureEq_refl g
+  · intro t' ht' hs0
+    rcases hmem t' ht' with ⟨t0, ht0, rfl⟩ | rfl
+    · rw [upd_super] at hs0; rw [upd_inh]; exact hf.rootInh t0 ht0 hs0
+    · rw [hs1] at hs0; cases hs0
+
+theorem featInv_createType_aux (K : Consts) (ts ts' : TypeSystem) (n s : String) (d : Option String)
+    (hc : Consistent ts) (hf : FeatInv ts) (hnew : hasExact ts n = false)
+    (h : createType K ts n s d = .ok ts') : FeatInv ts' := by
+  obtain ⟨sup, _, hsm, rfl⟩ := createType_shape K ts ts' n s d hc hf hnew h
+  exact featInv_extend ts _ n sup _ hc hf hnew hsm rfl rfl rfl rfl rfl
+
+theorem future_descendants_inherit_aux (K : Consts) (ts ts' : TypeSystem) (n s : String) (d : Option String)
+    (hc : Consistent ts) (hf : FeatInv ts) (hnew : hasExact ts n = false)
+    (h : createType K ts n s d = .ok ts') (sup new : TypeRec)
+    (hsup : getType ts s = .ok sup) (hnw : find? ts' n = some new) :
+    ∀ m, m ∈ fnames (allFeatures new) ↔ m ∈ fnames (allFeatures sup) := by
+  obtain ⟨sup', hsup', _, rfl⟩ := createType_shape K ts ts' n s d hc hf hnew h
+  rw [hsup] at hsup'
+  have e : sup = sup' := by injection hsup'
+  subst e
+  rw [find_create ts ts.redeclared n sup.name _ rfl hnew, if_pos rfl] at hnw
+  have e2 := (Option.some.inj hnw).symm
+  subst e2
+  intro m
+  rw [mem_fnames_allFeatures]
+  simp [fnames]
+
+/-! ### `find?` after `setRec`; acyclicity -/
+
+theorem find?_setRec_ne (ts : TypeSystem) (r : TypeRec) {x : String} (hx : x ≠ r.name) :
+    find? (setRec ts r) x = find? ts x := by
+  unfold find? setRec
+  simp only
+  induction ts.types with
+  | nil => rfl
+  | cons t l ih =>
+    simp only [List.map_cons, List.find?_cons]
+    by_cases htn : t.name = r.name
+    · have h1 : (t.name == r.name) = true := by simpa using htn
+      have h2 : (r.name == x) = false := by simpa using fun e => hx e.symm
+      have h3 : (t.name == x) = false := by rw [htn]; exact h2
+      simp only [h1, if_true, h2, h3]
+      exact ih
+    · have h1 : (t.name == r.name) = false := by simpa using htn
+      simp only [h1, Bool.false_eq_true, if_false]
+      split
+      · rfl
+      · exact ih
+
+theorem find_map_set_eq (r : TypeRec) : ∀ (l : List TypeRec) (t : TypeRec),
+    l.find? (·.name == r.name) = some t →
+    (l.map (fun t => if t.name == r.name then r else t)).find? (·.name == r.name) = some r := by
+  intro l
+  induction l with
+  | nil => intro t h; simp at h
+  | cons t0 l ih =>
+    intro t h
+    simp only [List.map_cons, List.find?_cons] at h ⊢
+    by_cases htn : t0.name = r.name
+    · have h1 : (t0.name == r.name) = true := by simpa using htn
+      simp only [h1, if_true, beq_self_eq_true]
+    · have h1 : (t0.name == r.name) = false := by simpa using htn
+      simp only [h1, Bool.false_eq_true, if_false] at h ⊢
+      exact ih t h
+
+theorem find?_setRec_eq (ts : TypeSystem) (r t : TypeRec) {x : String} (hx : r.name = x)
+    (h : find? ts x = some t) : find? (setRec ts r) x = some r := by
+  subst hx
+  exact find_map_set_eq r ts.types t h
+
+theorem not_anc_of_super {ts : TypeSystem} (hc : Consistent ts) {b s : String} {tb : TypeRec}
+    (hf : find? ts b = some tb) (hs : tb.super = some s) : ¬ Anc ts b s := by
+  intro h
+  obtain ⟨i, hi, e⟩ := find?_idx hf
+  have hib : (ts.types[i]).name = b := by rw [e]; exact find?_name hf
+  obtain ⟨j, hj, hjl, hjn⟩ := hc.topo i hi s (by rw [e]; exact hs)
+  have := h.idx_le hc i j hi hjl hib hjn
+  omega
+
+/-! ### What `pushInherited` does to a record -/
+
+/-- one record before and after: untouched, or `f` appended to the inherited features (only if the
+    name was not inherited yet, and only below one of the types in `S`) -/
+def PStep (ts0 : TypeSystem) (f : Feature) (S : List String) (x : String) (t t' : TypeRec) : Prop :=
+  t' = t ∨ (t' = { t with inh := t.inh ++ [f] } ∧ f.name ∉ fnames t.inh ∧ ∃ c ∈ S, Anc ts0 c x)
+
+theorem PStep.mono {ts0 : TypeSystem} {f : Feature} {S S' : List String} {x : String} {t t' : TypeRec}
+    (h : PStep ts0 f S x t t') (hS : ∀ c ∈ S, Anc ts0 c x → ∃ c' ∈ S', Anc ts0 c' x) :
+    PStep ts0 f S' x t t' := by
+  rcases h with h | ⟨h1, h2, c, hc, hcx⟩
+  · exact Or.inl h
+  · exact Or.inr ⟨h1, h2, hS c hc hcx⟩
+
+theorem PStep.comp {ts0 : TypeSystem} {f : Feature} {S : List String} {x : String} {t t1 t2 : TypeRec}
+    (h1 : PStep ts0 f S x t t1) (h2 : PStep ts0 f S x t1 t2) : PStep ts0 f S x t t2 := by
+  rcases h1 with rfl | ⟨e1, hn1, hS1⟩
+  · exact h2
+  · rcases h2 with rfl | ⟨e2, hn2, _⟩
+    · exact Or.inr ⟨e1, hn1, hS1⟩
+    · exfalso
+      apply hn2
+      rw [e1]
+      simp [fnames]
+
+theorem PStep.inh_mem {ts0 : TypeSystem} {f : Feature} {S : List String} {x : String} {t t' : TypeRec}
+    (h : PStep ts0 f S x t t') {n : String} (hn : n ∈ fnames t.inh) : n ∈ fnames t'.inh := by
+  rcases h with rfl | ⟨e, _, _⟩
+  · exact hn
+  · rw [e]; simp only [fnames_append, List.mem_append]; exact Or.inl hn
+
+theorem push_spec (ts0 : TypeSystem) (hc0 : Consistent ts0) (hf0 : FeatInv ts0) (f : Feature)
+    (fuel : Nat) (ts : TypeSystem) (cs : List String) :
+    ∀ ts' a, skel ts = skel ts0 →
+      (∀ c ∈ cs, ∃ tc, find? ts0 c = some tc ∧ tc.super = some a) → cs.Nodup →
+      (∀ c ∈ cs, ∀ x, Anc ts0 c x → find? ts x = find? ts0 x) →
+      pushInherited f fuel ts cs = .ok ts' →
+      (∀ x t, find? ts x = some t → ∃ t', find? ts' x = some t' ∧ PStep ts0 f cs x t t') ∧
+      (∀ c ∈ cs, ∀ x, Anc ts0 c x → ∀ t', find? ts' x = some t' → f.name ∈ fnames t'.inh) := by
+  fun_induction pushInherited f fuel ts cs with
+  | case1 => intro ts' a _ _ _ _ h; cases h
+  | case2 =>
+    intro ts' a _ _ _ _ h; cases h
+    exact ⟨fun x t hx => ⟨t, hx, Or.inl rfl⟩, fun c hc => by cases hc⟩
+  | case3 fuel ts c cs hf ih =>
+    intro ts' a _ hsib _ hunt h
+    obtain ⟨tc, htc, _⟩ := hsib c List.mem_cons_self
+    have := hunt c List.mem_cons_self c (Anc.refl c ((hasExact_iff_find ts0 c).mpr ⟨tc, htc⟩))
+    rw [hf, htc] at this; cases this
+  | case4 => intro ts' a _ _ _ _ h; cases h
+  | case5 fuel ts c cs t hf hchk ih =>
+    intro ts' a hsk hsib hnd hunt h
+    obtain ⟨tc, htc, hsc⟩ := hsib c List.mem_cons_self
+    have hregc : hasExact ts0 c = true := (hasExact_iff_find ts0 c).mpr ⟨tc, htc⟩
+    have etc : tc = t := by
+      have := hunt c List.mem_cons_self c (Anc.refl c hregc)
+      rw [hf, htc] at this; exact (Option.some.inj this).symm
+    subst etc
+    obtain ⟨Pb, Pc⟩ := ih ts' a hsk (fun c' hc' => hsib c' (List.mem_cons_of_mem _ hc'))
+      (List.nodup_cons.mp hnd).2 (fun c' hc' => hunt c' (List.mem_cons_of_mem _ hc')) h
+    refine ⟨?_, ?_⟩
+    · intro x t hx
+      obtain ⟨t', ht', hst⟩ := Pb x t hx
+      exact ⟨t', ht', hst.mono (fun c' hc' hcx => ⟨c', List.mem_cons_of_mem _ hc', hcx⟩)⟩
+    · intro c' hc' x hcx t' ht'
+      rcases List.mem_cons.mp hc' with rfl | hc'
+      · obtain ⟨g, hg, hgn, hgf⟩ := addCheck_true_same hchk
+        obtain ⟨tx, htx⟩ := (hasExact_iff_find ts0 x).mp hcx.right_reg
+        have hxs : find? ts x = some tx := by
+          rw [hunt c' List.mem_cons_self x hcx]; exact htx
+        have hmem : f.name ∈ fnames tx.inh := by
+          by_cases hxc : c' = x
+          · subst hxc
+            rw [htc] at htx; cases htx
+            rw [← hgn]; exact mem_fnames_of_mem hg
+          · obtain ⟨g', _, hgg, hg'⟩ := chain_down hf0 hcx htc htx g (List.mem_append_right _ hg)
+            rw [← hgn, ← featureEq_name hgg]
+            exact mem_fnames_of_mem (hg' hxc)
+        obtain ⟨t'', ht'', hst⟩ := Pb x tx hxs
+        rw [ht'] at ht''; cases ht''
+        exact hst.inh_mem hmem
+      · exact Pc c' hc' x hcx t' ht'
+  | case6 fuel ts c cs t hf hchk ts1 ih2 ih1 =>
+    intro ts' a hsk hsib hnd hunt h
+    obtain ⟨tc, htc, hsc⟩ := hsib c List.mem_cons_self
+    have hregc : hasExact ts0 c = true := (hasExact_iff_find ts0 c).mpr ⟨tc, htc⟩
+    have etc : tc = t := by
+      have := hunt c List.mem_cons_self c (Anc.refl c hregc)
+      rw [hf, htc] at this; exact (Option.some.inj this).symm
+    subst etc
+    have hfresh := addCheck_true_fresh hchk
+    have hn : (ts.types.map (·.name)).Nodup := nodup_of_skel hsk hc0.nodup
+    have htn : tc.name = c := find?_name hf
+    have hsk1 : skel ts1 = skel ts := by
+      apply skel_setRec ts _ tc hn
+      · show find? ts tc.name = some tc
+        rw [htn]; exact hf
+      · rfl
+    have hf1ne : ∀ x, x ≠ c → find? ts1 x = find? ts x := by
+      intro x hx
+      apply find?_setRec_ne
+      show x ≠ tc.name
+      rw [htn]; exact hx
+    have hf1eq : find? ts1 c = some { tc with inh := tc.inh ++ [f] } :=
+      find?_setRec_eq ts { tc with inh := tc.inh ++ [f] } tc htn hf
+    have hcnot : c ∉ cs := (List.nodup_cons.mp hnd).1
+    cases h2 : pushInherited f fuel ts1 tc.children with
+    | error e => rw [h2] at h; cases h
+    | ok ts2 =>
+      rw [h2] at h
+      have hchild : ∀ d ∈ tc.children, ∃ td, find? ts0 d = some td ∧ td.super = some c :=
+        fun d hd => (hc0.link c d).mp ⟨tc, htc, hd⟩
+      obtain ⟨P1b, P1c⟩ := ih2 ts2 c (hsk1.trans hsk) hchild (hc0.childNodup tc (find?_mem htc))
+        (by
+          intro d hd x hdx
+          obtain ⟨td, htd, hsd⟩ := hchild d hd
+          have hxc : x ≠ c := by
+            intro e; subst e; exact not_anc_of_super hc0 htd hsd hdx
+          rw [hf1ne x hxc]
+          exact hunt c List.mem_cons_self x (Anc.of_child hregc htd hsd hdx)) h2
+      have hsk2 : skel ts2 = skel ts1 :=
+        skel_pushInherited f fuel ts1 tc.children ts2 (nodup_of_skel hsk1 hn) h2
+      obtain ⟨P2b, P2c⟩ := ih1 ts2 ts' a (hsk2.trans (hsk1.trans hsk))
+        (fun c' hc' => hsib c' (List.mem_cons_of_mem _ hc')) (List.nodup_cons.mp hnd).2
+        (by
+          intro c2 hc2 x hx
+          obtain ⟨t2, hfc2, hs2⟩ := hsib c2 (List.mem_cons_of_mem _ hc2)
+          have hx0 := hunt c2 (List.mem_cons_of_mem _ hc2) x hx
+          obtain ⟨tx, htx⟩ := (hasExact_iff_find ts0 x).mp hx.right_reg
+          have hdis : ¬ Anc ts0 c x := by
+            intro hcx
+            have := children_disjoint hc0 hfc2 hs2 htc hsc hx hcx
+            subst this; exact hcnot hc2
+          have hxc : x ≠ c := by
+            intro e; subst e; exact hdis (Anc.refl x hregc)
+          have h1x : find? ts1 x = some tx := by rw [hf1ne x hxc, hx0, htx]
+          obtain ⟨t', ht', hst⟩ := P1b x tx h1x
+          rcases hst with rfl | ⟨_, _, d, hd, hdx⟩
+          · rw [ht', htx]
+          · obtain ⟨td, htd, hsd⟩ := hchild d hd
+            exact absurd (Anc.of_child hregc htd hsd hdx) hdis) h
+      refine ⟨?_, ?_⟩
+      · intro x tx hx
+        have hs0 : ∃ t1, find? ts1 x = some t1 ∧ PStep ts0 f (c :: cs) x tx t1 := by
+          by_cases hxc : x = c
+          · subst hxc
+            rw [hf] at hx; cases hx
+            exact ⟨_, hf1eq, Or.inr ⟨rfl, hfresh, x, List.mem_cons_self, Anc.refl x hregc⟩⟩
+          · exact ⟨tx, by rw [hf1ne x hxc]; exact hx, Or.inl rfl⟩
+        obtain ⟨t1, ht1, hst0⟩ := hs0
+        obtain ⟨t2, ht2, hst1⟩ := P1b x t1 ht1
+        obtain ⟨t3, ht3, hst2⟩ := P2b x t2 ht2
+        refine ⟨t3, ht3, (hst0.comp (hst1.mono ?_)).comp (hst2.mono ?_)⟩
+        · intro d hd hdx
+          obtain ⟨td, htd, hsd⟩ := hchild d hd
+          exact ⟨c, List.mem_cons_self, Anc.of_child hregc htd hsd hdx⟩
+        · intro c' hc' hcx
+          exact ⟨c', List.mem_cons_of_mem _ hc', hcx⟩
+      · intro c' hc' x hcx t' ht'
+        rcases List.mem_cons.mp hc' with rfl | hc'
+        · have h2x : ∃ t2, find? ts2 x = some t2 ∧ f.name ∈ fnames t2.inh := by
+            rcases hcx.down with e | ⟨d, td, htd, hsd, hdx⟩
+            · subst e
+              obtain ⟨t2, ht2, hst1⟩ := P1b c' _ hf1eq
+              refine ⟨t2, ht2, hst1.inh_mem ?_⟩
+              simp [fnames]
+            · have hd : d ∈ tc.children := by
+                obtain ⟨ta, hta, hm⟩ := (hc0.link c' d).mpr ⟨td, htd, hsd⟩
+                rw [htc] at hta; cases hta; exact hm
+              have hreg2 : hasExact ts2 x = true := by
+                rw [hasExact_transfer (hsk2.trans (hsk1.trans hsk))]; exact hcx.right_reg
+              obtain ⟨t2, ht2⟩ := (hasExact_iff_find ts2 x).mp hreg2
+              exact ⟨t2, ht2, P1c d hd x hdx t2 ht2⟩
+          obtain ⟨t2, ht2, hm2⟩ := h2x
+          obtain ⟨t3, ht3, hst2⟩ := P2b x t2 ht2
+          rw [ht'] at ht3; cases ht3
+          exact hst2.inh_mem hm2
+        · exact P2c c' hc' x hcx t' ht'
+
+/-! ### `addFeature`: what it computes -/
+
+theorem addFeature_cases {ts ts' : TypeSystem} {dom : String} {f : Feature}
+    (h : addFeature ts dom f = .ok ts') :
+    ∃ t, find? ts dom = some t ∧
+      ((addCheck t f false = .same ∧ ts' = ts) ∨
+       (addCheck t f false = .fresh ∧ descendantConflict ts dom f = false ∧
+        pushInherited f (ts.types.length + 1) (setRec ts { t with own := t.own ++ [f] }) t.children
+          = .ok ts')) := by
+  unfold addFeature at h
+  split at h
+  · cases h
+  · rename_i t hf
+    refine ⟨t, hf, ?_⟩
+    split at h
+    · cases h
+    · rename_i hchk; cases h; exact Or.inl ⟨hchk, rfl⟩
+    · rename_i hchk
+      split at h
+      · cases h
+      · rename_i hdc
+        exact Or.inr ⟨hchk, by simpa using hdc, h⟩
+
+/-- the result of a successful `addFeature` of a fresh name, record by record -/
+structure AddTarget (ts0 : TypeSystem) (dom : String) (f : Feature) (ts' : TypeSystem) : Prop where
+  skel : skel ts' = skel ts0
+  recs : ∀ x t, find? ts0 x = some t → ∃ t', find? ts' x = some t' ∧
+    (x = dom → t' = { t with own := t.own ++ [f] }) ∧
+    (x ≠ dom → PStep ts0 f [dom] x t t') ∧
+    (x ≠ dom → Anc ts0 dom x → f.name ∈ fnames t'.inh)
+
+theorem addFeature_target {ts ts' : TypeSystem} {dom : String} {f : Feature} {t : TypeRec}
+    (hc : Consistent ts) (hf : FeatInv ts) (ht : find? ts dom = some t)
+    (h : pushInherited f (ts.types.length + 1) (setRec ts { t with own := t.own ++ [f] }) t.children
+          = .ok ts') : AddTarget ts dom f ts' := by
+  have htn : t.name = dom := find?_name ht
+  have hreg : hasExact ts dom = true := (hasExact_iff_find ts dom).mpr ⟨t, ht⟩
+  have hsk1 : skel (setRec ts { t with own := t.own ++ [f] }) = skel ts := by
+    apply skel_setRec ts _ t hc.nodup
+    · show find? ts t.name = some t
+      rw [htn]; exact ht
+    · rfl
+  have hf1ne : ∀ x, x ≠ dom → find? (setRec ts { t with own := t.own ++ [f] }) x = find? ts x := by
+    intro x hx
+    apply find?_setRec_ne
+    show x ≠ t.name
+    rw [htn]; exact hx
+  have hf1eq : find? (setRec ts { t with own := t.own ++ [f] }) dom = some { t with own := t.own ++ [f] } :=
+    find?_setRec_eq ts { t with own := t.own ++ [f] } t htn ht
+  have hchild : ∀ d ∈ t.children, ∃ td, find? ts d = some td ∧ td.super = some dom :=
+    fun d hd => (hc.link dom d).mp ⟨t, ht, hd⟩
+  have hnotdom : ∀ d ∈ t.children, ¬ Anc ts d dom := by
+    intro d hd hdx
+    obtain ⟨td, htd, hsd⟩ := hchild d hd
+    exact not_anc_of_super hc htd hsd hdx
+  obtain ⟨Pb, Pc⟩ := push_spec ts hc hf f _ _ _ ts' dom hsk1 hchild (hc.childNodup t (find?_mem ht))
+    (by
+      intro d hd x hdx
+      have hxc : x ≠ dom := by
+        intro e; subst e; exact hnotdom d hd hdx
+      exact hf1ne x hxc) h
+  refine ⟨(skel_pushInherited f _ _ _ ts' (nodup_of_skel hsk1 hc.nodup) h).trans hsk1, ?_⟩
+  intro x tx hx
+  by_cases hxd : x = dom
+  · subst hxd
+    rw [ht] at hx; cases hx
+    obtain ⟨t', ht', hst⟩ := Pb x _ hf1eq
+    refine ⟨t', ht', ?_, fun h => absurd rfl h, fun h => absurd rfl h⟩
+    intro _
+    rcases hst with e | ⟨_, _, d, hd, hdx⟩
+    · exact e
+    · exact absurd hdx (hnotdom d hd)
+  · obtain ⟨t', ht', hst⟩ := Pb x tx (by rw [hf1ne x hxd]; exact hx)
+    refine ⟨t', ht', fun h => absurd h hxd, fun _ => hst.mono ?_, ?_⟩
+    · intro d hd hdx
+      obtain ⟨td, htd, hsd⟩ := hchild d hd
+      exact ⟨dom, List.mem_cons_self, Anc.of_child hreg htd hsd hdx⟩
+    · intro _ hax
+      rcases hax.down with e | ⟨d, td, htd, hsd, hdx⟩
+      · exact absurd e.symm hxd
+      · have hd : d ∈ t.children := by
+          obtain ⟨ta, hta, hm⟩ := (hc.link dom d).mpr ⟨td, htd, hsd⟩
+          rw [ht] at hta; cases hta; exact hm
+        exact Pc d hd x hdx t' ht'
+
+theorem AddTarget.cases {ts0 ts' : TypeSystem} {dom : String} {f : Feature}
+    (hT : AddTarget ts0 dom f ts') {x : String} {t t' : TypeRec}
+    (hx : find? ts0 x = some t) (hx' : find? ts' x = some t') :
+    (x = dom ∧ t' = { t with own := t.own ++ [f] }) ∨
+    (x ≠ dom ∧ Anc ts0 dom x ∧ f.name ∉ fnames t.inh ∧ t' = { t with inh := t.inh ++ [f] }) ∨
+    (x ≠ dom ∧ t' = t ∧ (Anc ts0 dom x → f.name ∈ fnames t.inh)) := by
+  obtain ⟨t'', ht'', h1, h2, h3⟩ := hT.recs x t hx
+  rw [hx'] at ht''; cases ht''
+  by_cases hxd : x = dom
+  · exact Or.inl ⟨hxd, h1 hxd⟩
+  · right
+    rcases h2 hxd with e | ⟨e, hn, c, hc, hcx⟩
+    · right
+      refine ⟨hxd, e, fun ha => ?_⟩
+      have := h3 hxd ha
+      rw [e] at this; exact this
+    · left
+      simp only [List.mem_singleton] at hc; subst hc
+      exact ⟨hxd, hcx, hn, e⟩
+
+theorem noConflict_of {ts : TypeSystem} (hc : Consistent ts) (hf : FeatInv ts) {dom : String} {f : Feature}
+    (hreg : hasExact ts dom = true) (hdc : descendantConflict ts dom f = false)
+    {x : String} {tx : TypeRec} {g : Feature} (hax : Anc ts dom x) (hxd : x ≠ dom)
+    (htx : find? ts x = some tx) (hg : g ∈ tx.own) (hgn : g.name = f.name) : featureEq g f = true := by
+  unfold descendantConflict at hdc
+  have hall := List.any_eq_false.mp hdc x ((descendants_eq_closure_aux ts hc dom x hreg).mpr hax)
+  have hfind : tx.own.find? (·.name == f.name) = some g := by
+    rw [← hgn]; exact find_name_of_mem (hf.ownNodup tx (find?_mem htx)) hg
+  have hne : (x != dom) = true := by simpa using hxd
+  simp only [htx, hfind, hne, Bool.true_and] at hall
+  simpa using hall
+
+theorem featInv_of_target {ts0 ts' : TypeSystem} {dom : String} {f : Feature} {td : TypeRec}
+    (hc : Consistent ts0) (hf : FeatInv ts0) (htd : find? ts0 dom = some td)
+    (hfo : f.name ∉ fnames td.own) (hfi : f.name ∉ fnames td.inh)
+    (hdc : descendantConflict ts0 dom f = false) (hT : AddTarget ts0 dom f ts') : FeatInv ts' := by
+  have hreg : hasExact ts0 dom = true := (hasExact_iff_find ts0 dom).mpr ⟨td, htd⟩
+  have hn' : (ts'.types.map (·.name)).Nodup := nodup_of_skel hT.skel hc.nodup
+  -- every record of `ts'` comes from a record of `ts0`
+  have hback : ∀ t' ∈ ts'.types, ∃ t, find? ts0 t'.name = some t ∧ find? ts' t'.name = some t' ∧
+      t.super = t'.super := by
+    intro t' ht'
+    have h1 := find?_of_mem hn' ht'
+    obtain ⟨t, ht, he⟩ := find?_transfer hT.skel h1
+    rw [tr_eq_iff] at he
+    exact ⟨t, ht, h1, he.2.1⟩
+  have hback_s : ∀ s ps', find? ts' s = some ps' → ∃ ps, find? ts0 s = some ps := by
+    intro s ps' h
+    obtain ⟨ps, hps, _⟩ := find?_transfer hT.skel h
+    exact ⟨ps, hps⟩
+  have noConf := @noConflict_of ts0 hc hf dom f hreg hdc
+  -- membership after the step
+  have mem_own : ∀ {x t t'}, find? ts0 x = some t → find? ts' x = some t' → ∀ g ∈ t'.own,
+      g ∈ t.own ∨ (x = dom ∧ g = f) := by
+    intro x t t' hx hx' g hg
+    rcases hT.cases hx hx' with ⟨h1, e⟩ | ⟨_, _, _, e⟩ | ⟨_, e, _⟩
+    · rw [e] at hg
+      rcases List.mem_append.mp hg with h | h
+      · exact Or.inl h
+      · exact Or.inr ⟨h1, by simpa using h⟩
+    · rw [e] at hg; exact Or.inl hg
+    · rw [e] at hg; exact Or.inl hg
+  have mem_inh : ∀ {x t t'}, find? ts0 x = some t → find? ts' x = some t' → ∀ g ∈ t'.inh,
+      g ∈ t.inh ∨ (x ≠ dom ∧ Anc ts0 dom x ∧ f.name ∉ fnames t.inh ∧ g = f) := by
+    intro x t t' hx hx' g hg
+    rcases hT.cases hx hx' with ⟨_, e⟩ | ⟨h1, h2, h3, e⟩ | ⟨_, e, _⟩
+    · rw [e] at hg; exact Or.inl hg
+    · rw [e] at hg
+      rcases List.mem_append.mp hg with h | h
+      · exact Or.inl h
+      · exact Or.inr ⟨h1, h2, h3, by simpa using h⟩
+    · rw [e] at hg; exact Or.inl hg
+  have names_inh : ∀ {x t t'}, find? ts0 x = some t → find? ts' x = some t' → ∀ n,
+      (n ∈ fnames t'.inh ↔ n ∈ fnames t.inh ∨ (x ≠ dom ∧ Anc ts0 dom x ∧ n = f.name)) := by
+    intro x t t' hx hx' n
+    rcases hT.cases hx hx' with ⟨h1, e⟩ | ⟨h1, h2, h3, e⟩ | ⟨h1, e, h3⟩
+    · rw [e]
+      constructor
+      · intro h; exact Or.inl h
+      · rintro (h | ⟨h, _⟩)
+        · exact h
+        · exact absurd h1 h
+    · rw [e]
+      simp only [fnames_append, List.mem_append]
+      constructor
+      · rintro (h | h)
+        · exact Or.inl h
+        · exact Or.inr ⟨h1, h2, by simpa [fnames] using h⟩
+      · rintro (h | ⟨_, _, h⟩)
+        · exact Or.inl h
+        · exact Or.inr (by simp [fnames, h])
+    · rw [e]
+      constructor
+      · intro h; exact Or.inl h
+      · rintro (h | ⟨_, h, rfl⟩)
+        · exact h
+        · exact h3 h
+  have names_eff : ∀ {x t t'}, find? ts0 x = some t → find? ts' x = some t' → ∀ n,
+      ((n ∈ fnames t'.own ∨ n ∈ fnames t'.inh) ↔
+        (n ∈ fnames t.own ∨ n ∈ fnames t.inh) ∨ (Anc ts0 dom x ∧ n = f.name)) := by
+    intro x t t' hx hx' n
+    rcases hT.cases hx hx' with ⟨h1, e⟩ | ⟨h1, h2, h3, e⟩ | ⟨h1, e, h3⟩
+    · rw [e]
+      simp only [fnames_append, List.mem_append]
+      have hself : Anc ts0 dom x := by rw [h1]; exact Anc.refl dom hreg
+      constructor
+      · rintro ((h | h) | h)
+        · exact Or.inl (Or.inl h)
+        · exact Or.inr ⟨hself, by simpa [fnames] using h⟩
+        · exact Or.inl (Or.inr h)
+      · rintro ((h | h) | ⟨_, h⟩)
+        · exact Or.inl (Or.inl h)
+        · exact Or.inr h
+        · exact Or.inl (Or.inr (by simp [fnames, h]))
+    · rw [e]
+      simp only [fnames_append, List.mem_append]
+      constructor
+      · rintro (h | h | h)
+        · exact Or.inl (Or.inl h)
+        · exact Or.inl (Or.inr h)
+        · exact Or.inr ⟨h2, by simpa [fnames] using h⟩
+      · rintro ((h | h) | ⟨_, h⟩)
+        · exact Or.inl h
+        · exact Or.inr (Or.inl h)
+        · exact Or.inr (Or.inr (by simp [fnames, h]))
+    · rw [e]
+      constructor
+      · intro h; exact Or.inl h
+      · rintro (h | ⟨h, rfl⟩)
+        · exact h
+        · exact Or.inr (h3 h)
+  -- being strictly below `dom` is being a child of something below-or-equal `dom`
+  have below_iff : ∀ {x s t}, find? ts0 x = some t → t.super = some s →
+      ((x ≠ dom ∧ Anc ts0 dom x) ↔ Anc ts0 dom s) := by
+    intro x s t hx hs
+    constructor
+    · rintro ⟨hne, ha⟩
+      rcases ha.inv hx with e | ⟨s', hs', h'⟩
+      · exact absurd e.symm hne
+      · rw [hs] at hs'; cases hs'; exact h'
+    · intro ha
+      refine ⟨?_, Anc.step dom x s t hx hs ha⟩
+      intro e; subst e
+      exact not_anc_of_super hc hx hs ha
+  refine ⟨?_, ?_, ?_, ?_, ?_, ?_⟩
+  · -- ownNodup
+    intro t' ht'
+    obtain ⟨t, hx, hx', _⟩ := hback t' ht'
+    have hold := hf.ownNodup t (find?_mem hx)
+    rcases hT.cases hx hx' with ⟨h1, e⟩ | ⟨_, _, _, e⟩ | ⟨_, e, _⟩
+    · rw [e]
+      rw [h1, htd] at hx; cases hx
+      exact fnames_nodup_snoc hold hfo
+    · rw [e]; exact hold
+    · rw [e]; exact hold
+  · -- inhNodup
+    intro t' ht'
+    obtain ⟨t, hx, hx', _⟩ := hback t' ht'
+    have hold := hf.inhNodup t (find?_mem hx)
+    rcases hT.cases hx hx' with ⟨_, e⟩ | ⟨_, _, h3, e⟩ | ⟨_, e, _⟩
+    · rw [e]; exact hold
+    · rw [e]; exact fnames_nodup_snoc hold h3
+    · rw [e]; exact hold
+  · -- compat
+    intro t' ht' f' hf' g hg e
+    obtain ⟨t, hx, hx', _⟩ := hback t' ht'
+    rcases mem_own hx hx' f' hf' with hfo' | ⟨hxd, rfl⟩
+    · rcases mem_inh hx hx' g hg with hgo | ⟨hxd, hax, _, rfl⟩
+      · exact hf.compat t (find?_mem hx) f' hfo' g hgo e
+      · exact noConf hax hxd hx hfo' e
+    · rcases mem_inh hx hx' g hg with hgo | ⟨hxd', _, _, _⟩
+      · exfalso
+        rw [hxd, htd] at hx; cases hx
+        exact hfi (e ▸ mem_fnames_of_mem hgo)
+      · exact absurd hxd hxd'
+  · -- inherit
+    intro t' ht' s ps' hs hps' n
+    obtain ⟨t, hx, hx', hsup⟩ := hback t' ht'
+    obtain ⟨ps, hps⟩ := hback_s s ps' hps'
+    have hs0 : t.super = some s := hsup.trans hs
+    rw [mem_fnames_allFeatures, names_inh hx hx' n, names_eff hps hps' n,
+      hf.inherit' (find?_mem hx) hs0 hps n]
+    have hb := below_iff hx hs0
+    constructor
+    · rintro (h | ⟨h1, h2, h3⟩)
+      · exact Or.inl h
+      · exact Or.inr ⟨hb.mp ⟨h1, h2⟩, h3⟩
+    · rintro (h | ⟨h1, h3⟩)
+      · exact Or.inl h
+      · exact Or.inr ⟨(hb.mpr h1).1, (hb.mpr h1).2, h3⟩
+  · -- inheritEq
+    intro t' ht' s ps' hs hps' g hg f' hf' e
+    obtain ⟨t, hx, hx', hsup⟩ := hback t' ht'
+    obtain ⟨ps, hps⟩ := hback_s s ps' hps'
+    have hs0 : t.super = some s := hsup.trans hs
+    have hb := below_iff hx hs0
+    have hinh := hf.inherit' (find?_mem hx) hs0 hps
+    have hieq := hf.inheritEq' (find?_mem hx) hs0 hps
+    -- where `f'` comes from
+    have hf'cases : f' ∈ ps.own ++ ps.inh ∨
+        (f' = f ∧ Anc ts0 dom s ∧ (s = dom ∨ f.name ∉ fnames ps.inh)) := by
+      rcases List.mem_append.mp (allFeatures_sub hf') with h | h
+      · rcases mem_own hps hps' f' h with h | ⟨h1, h2⟩
+        · exact Or.inl (List.mem_append_left _ h)
+        · exact Or.inr ⟨h2, by rw [h1]; exact Anc.refl dom hreg, Or.inl h1⟩
+      · rcases mem_inh hps hps' f' h with h | ⟨_, h2, h3, h4⟩
+        · exact Or.inl (List.mem_append_right _ h)
+        · exact Or.inr ⟨h4, h2, Or.inr h3⟩
+    rcases mem_inh hx hx' g hg with hgo | ⟨hxd, hax, hnot, rfl⟩
+    · rcases hf'cases with hold | ⟨rfl, has, hcase⟩
+      · exact hieq g hgo f' hold e
+      · have hgn : f'.name ∈ fnames t.inh := e ▸ mem_fnames_of_mem hgo
+        have hown : f'.name ∈ fnames ps.own := by
+          rcases (hinh _).mp hgn with h | h
+          · exact h
+          · rcases hcase with h1 | h1
+            · rw [h1, htd] at hps; cases hps; exact absurd h hfi
+            · exact absurd h h1
+        have hsd : s ≠ dom := by
+          intro h1; rw [h1, htd] at hps; cases hps; exact hfo hown
+        obtain ⟨g0, hg0, hg0n⟩ := mem_fnames.mp hown
+        have h1 : featureEq g0 f' = true := noConf has hsd hps hg0 hg0n
+        have h2 : featureEq g0 g = true := hieq g hgo g0 (List.mem_append_left _ hg0) (hg0n.trans e)
+        exact featureEq_trans (featureEq_symm h1) h2
+    · rcases hf'cases with hold | ⟨rfl, _, _⟩
+      · exfalso
+        apply hnot
+        rw [hinh, ← List.mem_append, ← fnames_append, ← e]
+        exact mem_fnames_of_mem hold
+      · exact featureEq_refl _
+  · -- rootInh
+    intro t' ht' hs
+    obtain ⟨t, hx, hx', hsup⟩ := hback t' ht'
+    have hs0 : t.super = none := hsup.trans hs
+    have hold := hf.rootInh t (find?_mem hx) hs0
+    rcases hT.cases hx hx' with ⟨_, e⟩ | ⟨h1, h2, _, _⟩ | ⟨_, e, _⟩
+    · rw [e]; exact hold
+    · exfalso
+      rcases h2.inv hx with e | ⟨s', hs', _⟩
+      · exact h1 e.symm
+      · rw [hs0] at hs'; cases hs'
+    · rw [e]; exact hold
+
+theorem featInv_addFeature_aux (ts ts' : TypeSystem) (dom : String) (f : Feature)
+    (hc : Consistent ts) (hf : FeatInv ts) (h : addFeature ts dom f = .ok ts') : FeatInv ts' := by
+  obtain ⟨t, ht, ⟨_, rfl⟩ | ⟨hchk, hdc, hpush⟩⟩ := addFeature_cases h
+  · exact hf
+  · obtain ⟨h1, h2⟩ := addCheck_false_fresh hchk
+    exact featInv_of_target hc hf ht h1 h2 hdc (addFeature_target hc hf ht hpush)
+
+theorem featInv_createFeature_aux (ts ts' : TypeSystem) (dom name range : String)
+    (elem descr : Option String) (multi : Option Bool) (hc : Consistent ts) (hf : FeatInv ts)
+    (h : createFeature ts dom name range elem descr multi = .ok ts') : FeatInv ts' := by
+  obtain ⟨d, f, h'⟩ := createFeature_ok ts ts' dom name range elem descr multi h
+  exact featInv_addFeature_aux ts ts' d f hc hf h'
+
+/-! ### Histories -/
+
+theorem featInv_history_aux (K : Consts) (ops : List TsOp) :
+    Consistent (ops.foldl (applyOp K) Gen.builtinTS) ∧ FeatInv (ops.foldl (applyOp K) Gen.builtinTS) := by
+  have : ∀ ts, Consistent ts ∧ FeatInv ts →
+      Consistent (ops.foldl (applyOp K) ts) ∧ FeatInv (ops.foldl (applyOp K) ts) := by
+    induction ops with
+    | nil => intro ts h; exact h
+    | cons op ops ih =>
+      intro ts h
+      apply ih
+      cases op with
+      | createType n s d =>
+        simp only [applyOp]
+        cases hn : hasExact ts n with
+        | true => simpa using h
+        | false =>
+          simp only [Bool.false_eq_true, if_false]
+          cases hts : createType K ts n s d with
+          | ok ts' =>
+            exact ⟨consistent_createType_aux K ts ts' n s d h.1 hn hts,
+              featInv_createType_aux K ts ts' n s d h.1 h.2 hn hts⟩
+          | error e => exact h
+      | createFeature dom n r e d m =>
+        simp only [applyOp]
+        cases hts : createFeature ts dom n r e d m with
+        | ok ts' =>
+          exact ⟨consistent_createFeature_aux ts ts' dom n r e d m h.1 hts,
+            featInv_createFeature_aux ts ts' dom n r e d m h.1 h.2 hts⟩
+        | error e => exact h
+  exact this _ ⟨consistent_builtins_aux.1, featInv_builtins_aux.1⟩
+
+/-! ### Visibility -/
+
+theorem getFeature_isSome {t : TypeRec} {n : String}
+    (h : n ∈ fnames t.own ∨ n ∈ fnames t.inh) : (getFeature t n).isSome = true := by
+  unfold getFeature
+  cases h1 : t.own.find? (·.name == n) with
+  | some g => rfl
+  | none =>
+    simp only
+    cases h2 : t.inh.find? (·.name == n) with
+    | some g => rfl
+    | none =>
+      rcases h with h | h
+      · exact absurd h (find_name_none.mp h1)
+      · exact absurd h (find_name_none.mp h2)
+
+theorem feature_visible_everywhere_aux (ts ts' : TypeSystem) (dom : String) (f : Feature)
+    (hc : Consistent ts) (hf : FeatInv ts) (h : addFeature ts dom f = .ok ts')
+    (d : String) (td : TypeRec) (hd : Anc ts' dom d) (htd : find? ts' d = some td) :
+    f.name ∈ fnames (allFeatures td) ∧ f.name ∈ ctorFields td ∧ (getFeature td f.name).isSome = true := by
+  have hf' : FeatInv ts' := featInv_addFeature_aux ts ts' dom f hc hf h
+  obtain ⟨tdom', htdom'⟩ := (hasExact_iff_find ts' dom).mp hd.left_reg
+  have hdom : f.name ∈ fnames (allFeatures tdom') := by
+    rw [mem_fnames_allFeatures]
+    obtain ⟨t, ht, ⟨hchk, rfl⟩ | ⟨hchk, hdc, hpush⟩⟩ := addFeature_cases h
+    · rw [ht] at htdom'; cases htdom'
+      obtain ⟨g, hg, hgn, _⟩ := addCheck_false_same hchk
+      rw [← List.mem_append, ← fnames_append, ← hgn]
+      exact mem_fnames_of_mem hg
+    · obtain ⟨t', ht', h1, _, _⟩ := (addFeature_target hc hf ht hpush).recs dom t ht
+      rw [htdom'] at ht'; cases ht'
+      left
+      rw [h1 rfl]
+      simp [fnames]
+  have hall := inherited_down_aux ts' hf' dom d tdom' td hd htdom' htd f.name hdom
+  exact ⟨hall, hall, getFeature_isSome ((mem_fnames_allFeatures td f.name).mp hall)⟩
+
+/-! ### Conflicts -/
+
+theorem addFeature_conflict {ts : TypeSystem} {b : String} {tb : TypeRec} {f : Feature}
+    (htb : find? ts b = some tb) (h : addCheck tb f false = .conflict) :
+    addFeature ts b f = .error .valueError := by
+  unfold addFeature
+  simp only [htb, h]
+
+theorem conflict_with_ancestor_aux (ts : TypeSystem) (hf : FeatInv ts) (a b : String) (ta tb : TypeRec)
+    (hab : Anc ts a b) (hta : find? ts a = some ta) (htb : find? ts b = some tb)
+    (g : Feature) (hg : g ∈ allFeatures ta) (f : Feature) (hn : f.name = g.name) (hne : featureEq g f = false) :
+    addFeature ts b f = .error .valueError := by
+  obtain ⟨g', hg', hgg, _⟩ := chain_down hf hab hta htb g (allFeatures_sub hg)
+  have hne' : featureEq g' f = false := by
+    cases h : featureEq g' f with
+    | false => rfl
+    | true => rw [featureEq_trans (featureEq_symm hgg) h] at hne; cases hne
+  exact addFeature_conflict htb
+    (addCheck_false_conflict hf (find?_mem htb) hg' ((featureEq_name hgg).trans hn.symm) hne')
+
+theorem conflict_with_descendant_aux (ts : TypeSystem) (hc : Consistent ts) (hf : FeatInv ts) (a b : String)
+    (ta tb : TypeRec) (hab : Anc ts a b) (hne' : a ≠ b) (hta : find? ts a = some ta) (htb : find? ts b = some tb)
+    (g : Feature) (hg : g ∈ tb.own) (f : Feature) (hn : f.name = g.name) (hne : featureEq g f = false) :
+    addFeature ts a f = .error .valueError := by
+  cases hchk : addCheck ta f false with
+  | conflict => exact addFeature_conflict hta hchk
+  | same =>
+    exfalso
+    obtain ⟨g1, hg1, hg1n, hg1f⟩ := addCheck_false_same hchk
+    obtain ⟨g', hg', hgg, _⟩ := chain_down hf hab hta htb g1 hg1
+    have h1 : featureEq g g' = true :=
+      hf.coherent (find?_mem htb) g (List.mem_append_left _ hg) g' hg'
+        (hn.symm.trans (hg1n.symm.trans (featureEq_name hgg).symm))
+    rw [featureEq_trans (featureEq_trans h1 hgg) hg1f] at hne; cases hne
+  | fresh =>
+    have hreg : hasExact ts a = true := (hasExact_iff_find ts a).mpr ⟨ta, hta⟩
+    have hdc : descendantConflict ts a f = true := by
+      unfold descendantConflict
+      rw [List.any_eq_true]
+      refine ⟨b, (descendants_eq_closure_aux ts hc a b hreg).mpr hab, ?_⟩
+      have hfind : tb.own.find? (·.name == f.name) = some g := by
+        rw [hn]; exact find_name_of_mem (hf.ownNodup tb (find?_mem htb)) hg
+      have hba : (b != a) = true := by simpa using fun e => hne' e.symm
+      simp only [htb, hfind, hne, hba, Bool.not_false, Bool.and_self]
+    unfold addFeature
+    simp only [hta, hchk, hdc, if_true]
+
+end Cassis.TS
+
+namespace Cassis
+open Cassis.TS
+
+/-! ### `construct` -/
+
+theorem alistGet?_map_isSome {β} (v : String → β) (l : List String) (n : String) :
+    (alistGet? (l.map (fun m => (m, v m))) n).isSome = true ↔ n ∈ l := by
+  induction l with
+  | nil => simp [alistGet?]
+  | cons a l ih =>
+    simp only [List.map_cons, alistGet?, List.mem_cons]
+    by_cases h : a = n
+    · simp [h]
+    · simp only [h, if_false, ih]
+      constructor
+      · intro h'; exact Or.inr h'
+      · rintro (h' | h')
+        · exact absurd h'.symm h
+        · exact h'
+
+end Cassis
+
+namespace Cassis.TS
+
+theorem construct_ok_iff_aux (t : TypeRec) (ti : Nat) (xid : Option Int) (kw : List (String × Val)) :
+    (∃ o, construct t ti xid kw = .ok o) ↔ ∀ p ∈ kw, p.1 ∈ fnames (allFeatures t) := by
+  unfold construct
+  simp only
+  constructor
+  · rintro ⟨o, ho⟩ p hp
+    split at ho
+    · cases ho
+    · rename_i hany
+      have := List.any_eq_false.mp (Bool.eq_false_iff.mpr hany) p hp
+      have hm : p.1 ∈ (ctorFields t).eraseDups := by simpa using this
+      exact List.mem_eraseDups.mp hm
+  · intro h
+    have hany : (kw.any fun p => !((ctorFields t).eraseDups.contains p.1)) = false := by
+      rw [List.any_eq_false]
+      intro p hp
+      have : p.1 ∈ (ctorFields t).eraseDups := List.mem_eraseDups.mpr (h p hp)
+      simpa using this
+    rw [hany]
+    exact ⟨_, rfl⟩
+
+theorem construct_slots_aux (t : TypeRec) (ti : Nat) (xid : Option Int) (kw : List (String × Val)) (o : Obj)
+    (h : construct t ti xid kw = .ok o) (n : String) :
+    (alistGet? o.slots n).isSome = true ↔ n ∈ fnames (allFeatures t) := by
+  unfold construct at h
+  simp only at h
+  split at h
+  · cases h
+  · cases h
+    simp only
+    rw [alistGet?_map_isSome (fun m => (alistGet? kw m).getD Val.none)]
+    exact List.mem_eraseDups
 
 end Cassis.TS
